@@ -29,7 +29,10 @@ Record state := mkSt {
   eoc : bool;
   objs : list obj;
   tx : option bool;        (* session._transaction: None | Some deactive? *)
-  flushed : bool }.        (* a flush already ran in the current operation (modified flags of env are stale) *)
+  flushed : bool;          (* a flush already ran in the current operation (modified flags of env are stale) *)
+  bad : bool }.            (* ghost flag, never read by the model: set when identity_map.replace() evicts another
+                              object, when _restore_snapshot re-maps a state that is not attached, and when
+                              Session.delete() is given a state carrying the _deleted flag *)
 
 Record env := mkEnv {
   rows : list Z;
@@ -53,10 +56,11 @@ Definition get (st : state) (i : nat) : obj := nth i (objs st) dflt.
 Fixpoint mapi (f : nat -> obj -> obj) (i : nat) (l : list obj) : list obj :=
   match l with [] => [] | o :: r => f i o :: mapi f (S i) r end.
 Definition app_all (f : nat -> obj -> obj) (st : state) : state :=
-  mkSt (eoc st) (mapi f 0%nat (objs st)) (tx st) (flushed st).
+  mkSt (eoc st) (mapi f 0%nat (objs st)) (tx st) (flushed st) (bad st).
 Definition only (i : nat) (g : obj -> obj) : nat -> obj -> obj := fun j o => if Nat.eqb j i then g o else o.
-Definition set_tx (t : option bool) (st : state) : state := mkSt (eoc st) (objs st) t (flushed st).
-Definition set_flushed (b : bool) (st : state) : state := mkSt (eoc st) (objs st) (tx st) b.
+Definition set_tx (t : option bool) (st : state) : state := mkSt (eoc st) (objs st) t (flushed st) (bad st).
+Definition set_flushed (b : bool) (st : state) : state := mkSt (eoc st) (objs st) (tx st) b (bad st).
+Definition flag_bad (b : bool) (st : state) : state := mkSt (eoc st) (objs st) (tx st) (flushed st) (bad st || b).
 Definition has_tx (st : state) : bool := match tx st with Some _ => true | None => false end.
 Definition is_deact (st : state) : bool := match tx st with Some d => d | None => false end.
 Definition autobegin (st : state) : state := match tx st with None => set_tx (Some false) st | Some _ => st end.
@@ -80,6 +84,12 @@ Definition conflict (i : nat) (st : state) : bool :=
 Definition claiming (i : nat) (k : key) (g : obj -> obj) : nat -> obj -> obj :=
   fun j o => if Nat.eqb j i then g o
              else if iimap o && okey_eqb (okey o) (Some k) then set_iimap false o else o.
+
+(* does another state hold key [k]? *)
+Definition evicts (i : nat) (k : key) (st : state) : bool :=
+  existsb (fun j => negb (Nat.eqb j i) && iimap (get st j) && okey_eqb (okey (get st j)) (Some k)) (all_idx st).
+Definition app_claim (i : nat) (k : key) (g : obj -> obj) (st : state) : state :=
+  flag_bad (evicts i k st) (app_all (claiming i k g) st).
 
 (* ---- detach / expunge ------------------------------------------------------------------------- *)
 Definition detach_obj (to_transient : bool) (o : obj) : obj :=
@@ -115,7 +125,7 @@ Definition revert_impl (i : nat) (st : state) : state * Z :=
   let o := get st i in
   match okey o with
   | None => (st, 1)
-  | Some k => if odel o && negb (osess o) then (st, 0) else (app_all (claiming i k revert_obj) st, 0)
+  | Some k => if odel o && negb (osess o) then (st, 0) else (app_claim i k revert_obj st, 0)
   end.
 Definition delete_impl (i : nat) (st : state) : state * Z :=
   let o := get st i in
@@ -125,7 +135,7 @@ Definition delete_impl (i : nat) (st : state) : state * Z :=
       let st := autobegin st in
       if isdel o then (st, 0)
       else if conflict i st then (st, 1)
-      else (app_all (only i (fun o => set_isdel true (set_sess true (set_iimap true o)))) st, 0)
+      else (flag_bad (odel o) (app_all (only i (fun o => set_isdel true (set_sess true (set_iimap true o)))) st), 0)
   end.
 Definition newly_deleted_obj (has_tx : bool) (o : obj) : obj :=
   set_del true (set_isdel false (set_iimap false (if has_tx then set_itdel true o else o))).
@@ -144,7 +154,7 @@ Definition unswitch_one (i : nat) (st : state) : state :=
   | None => st
   | Some old =>
       if itnew (get st i) then app_all (only i (fun o => set_key (Some old) (set_iimap false o))) st
-      else app_all (claiming i old (fun o => set_iimap true (set_key (Some old) o))) st
+      else flag_bad (negb (osess (get st i))) (app_claim i old (fun o => set_iimap true (set_key (Some old) o)) st)
   end.
 Definition restore_snapshot (st : state) : state * Z :=
   let st := app_all (fun _ => restore_expunge_obj (has_tx st)) st in
@@ -180,7 +190,7 @@ Definition organize_one (e : env) (dels : nat -> bool) (rws : list Z) (st : stat
   | Some ex =>
       if eexp e ex && eidexp e ex && negb (osess (get st ex)) then (FFail st 7, None)
       else if eexp e ex && negb (memz (pk op) rws)
-      then (FOk (app_all (only ex (newly_deleted_obj (has_tx st))) st) rws, None)
+      then (FOk (flag_bad true (app_all (only ex (newly_deleted_obj (has_tx st))) st)) rws, None)
       else (FOk st rws, if dels ex then Some ex else None)
   end.
 Fixpoint organize (e : env) (dels : nat -> bool) (rws : list Z) (st : state) (ps : list nat)
@@ -257,7 +267,7 @@ Definition register_obj (has_tx : bool) (newk : key) (o : obj) : obj :=
 Definition register_one (st : state) (i : nat) : state :=
   let o := get st i in
   let newk := (pk o, otok o) in
-  app_all (claiming i newk (register_obj (has_tx st) newk)) st.
+  app_claim i newk (register_obj (has_tx st) newk) st.
 
 Definition finalize (st0 : state) (reg : nat -> bool) (st : state) : state :=
   let st := app_all (fun i o => if isdel (get st0 i) then newly_deleted_obj (has_tx st) o else o) st in
@@ -292,7 +302,7 @@ Inductive op :=
   | Query (route : Z) (tok : Z) | Get (k : Z) (tok : Z) | Refresh (i : nat) | Merge (i : nat) | Expunge (i : nat)
   | Add (i : nat) | PkSet (i : nat) (k : Z) | Flush | Commit | Rollback | Delete (i : nat) | ExtDelete (k : Z).
 
-Definition add_obj (o : obj) (st : state) : state := mkSt (eoc st) (objs st ++ [o]) (tx st) (flushed st).
+Definition add_obj (o : obj) (st : state) : state := mkSt (eoc st) (objs st ++ [o]) (tx st) (flushed st) (bad st).
 Definition with_rows (e : env) (rws : list Z) : env := mkEnv rws (eexp e) (eidexp e) (ehasid e) (emodified e).
 
 (* a SELECT through Session.execute: autoflush, then a connection.  result: state, error, rows *)
@@ -341,7 +351,7 @@ Definition do_get (e : env) (k : key) (st : state) : result :=
       else
         let '(st1, c, rws) := sql e st in
         let gone := fun st2 => get_miss (with_rows e rws) k
-                                  (app_all (only h (newly_deleted_obj (has_tx st2))) st2) in
+                                  (flag_bad true (app_all (only h (newly_deleted_obj (has_tx st2))) st2)) in
         if Z.eqb c 5 then gone st1                                 (* ObjectDeletedError out of the autoflush *)
         else if negb (Z.eqb c 0) then ret st1 c
         else if negb (memz (key_pk (get st1 h)) rws) then gone st1 (* the row is gone *)
@@ -454,7 +464,7 @@ Definition stop (e : env) (st : state) : bool :=
   || has_dup key_eqb (map (flush_key e st) (filter (to_flush e st) (all_idx st)))
   || has_dup Z.eqb (map (fun i => key_pk (get st i)) (filter (is_dirty e st) (all_idx st))).
 
-Definition init (eoc_ : bool) (pks : list Z) : state := mkSt eoc_ (map new_obj pks) None false.
+Definition init (eoc_ : bool) (pks : list Z) : state := mkSt eoc_ (map new_obj pks) None false false.
 
 Fixpoint run (h : list (env * op)) (st : state) : state :=
   match h with
